@@ -267,6 +267,54 @@ pub fn corrupt_record(rng: &mut Rng, l: &str) -> Option<String> {
     })
 }
 
+/// L1 variant for "a line failing after partial progress": first a benign change of an EARLIER numeric field (so that
+/// whatever the parser writes before failing differs from what an earlier, valid line wrote), then a breaking edit of a
+/// LATER field.
+pub fn corrupt_record_partial(rng: &mut Rng, l: &str) -> Option<String> {
+    let seps = sep_positions(l);
+    if seps.len() < 2 {
+        return None;
+    }
+    // field k spans (start, end); field 0 starts at 0 or after the key's ':'
+    let mut bounds: Vec<(usize, usize)> = Vec::new();
+    let mut st = 0;
+    for &p in &seps {
+        bounds.push((st, p));
+        st = p + 1;
+    }
+    bounds.push((st, l.len()));
+    let numeric: Vec<usize> = (0..bounds.len() - 1).filter(|&k| {
+        let f = l[bounds[k].0..bounds[k].1].trim();
+        !f.is_empty() && f.parse::<f64>().is_ok()
+    }).collect();
+    if numeric.is_empty() {
+        return None;
+    }
+    let k = *rng.pick(&numeric);
+    let later: Vec<usize> = (k + 1..bounds.len()).collect();
+    let j = *rng.pick(&later);
+    let old = l[bounds[k].0..bounds[k].1].trim();
+    let newv = match old.parse::<i64>() {
+        Ok(v) => (if v >= 200 { v - 1 - rng.range(0, 60) } else { v + 1 + rng.range(0, 50) }).to_string(),
+        Err(_) => format!("{}", old.parse::<f64>().unwrap_or(1.0) + 0.5),
+    };
+    let bad = *rng.pick(&["256", "x", "", "NaN", "2147483648", "-1e39", "1e", "9001", "131073", "-", "1:x"]);
+    let mut out = String::new();
+    for (i, (a, z)) in bounds.iter().enumerate() {
+        if i > 0 {
+            out.push_str(&l[bounds[i - 1].1..*a]);
+        }
+        if i == k {
+            out.push_str(&newv);
+        } else if i == j {
+            out.push_str(bad);
+        } else {
+            out.push_str(&l[*a..*z]);
+        }
+    }
+    Some(out)
+}
+
 pub const NOISE_LINES: &[&str] = &["", "   ", "\t", "// comment", "  // indented comment", "[Unknown]", " [General]", "[General] // x", "[]", "[HitObjects", "garbage", "a:b:c", "\u{3000}", "x\ry"];
 
 // ------------------------------------------------------------------------------------------ structured generator
@@ -321,7 +369,41 @@ pub fn gen_path(rng: &mut Rng) -> String {
     s
 }
 
+/// Slider lines with hostile geometry: near-collinear three-point arcs at large coordinates (in f32 the collinearity
+/// pre-check passes while the circumcircle denominator rounds to zero, giving NaN/inf lengths), huge arcs that need
+/// more sub-points than the cap, coordinates at the +-131072 limit, piles of repeated points, absent / zero / huge length.
+pub fn gen_hostile_slider(rng: &mut Rng, time: i64) -> String {
+    let scale = *rng.pick(&[1000i64, 10_000, 100_000, 130_000]);
+    let (ax, ay) = (rng.range(0, scale), rng.range(0, scale));
+    let (dx, dy) = (rng.range(-200, 200), rng.range(-200, 200));
+    let k1 = rng.range(1, 5);
+    let k2 = k1 + rng.range(1, 8);
+    let (bx, by) = (ax + dx * k1, ay + dy * k1);
+    let (cx, cy) = (ax + dx * k2 + rng.range(-1, 1), ay + dy * k2 + rng.range(-1, 1));
+    let path = match rng.below(8) {
+        0 | 1 => format!("P|{bx}:{by}|{cx}:{cy}"),
+        2 | 3 | 4 => format!("{}|{}:{}|P|{ax}:{ay}|{bx}:{by}|{cx}:{cy}", rng.pick(&["L", "B", "C"]), rng.range(0, 50), rng.range(0, 50)),
+        5 => format!("P|{}:{}|{}:{}", rng.range(20_000, 131_072), rng.range(20_000, 131_072), rng.range(-131_072, 0), rng.range(20_000, 131_072)), // huge arc
+        6 => format!("{}|131072:131072|-131072:-131072|131072:-131072|{}:{}", rng.pick(&["B", "C", "L"]), ax, ay),
+        _ => {
+            let p = format!("|{ax}:{ay}");
+            format!("{}{}", rng.pick(&["B", "C", "L", "P"]), p.repeat(2 + rng.below(6)))
+        }
+    };
+    let len = *rng.pick(&["", "", ",0", ",100000", ",131072", ",1", ",0.0001", ",-5"]);
+    let slides = rng.range(1, 3);
+    let (x, y) = if rng.chance(1, 2) { (0, 0) } else { (rng.range(-131_072, 131_072), rng.range(-131_072, 131_072)) };
+    if len.is_empty() {
+        format!("{x},{y},{time},2,0,{path},{slides}")
+    } else {
+        format!("{x},{y},{time},2,0,{path},{slides}{len}")
+    }
+}
+
 pub fn gen_hit_object(rng: &mut Rng, time: i64, mode: i64) -> String {
+    if rng.chance(1, 14) {
+        return gen_hostile_slider(rng, time);
+    }
     let x = num(rng, 0, 512);
     let y = num(rng, 0, 384);
     let t = if rng.chance(1, 30) { rng.pick(HOSTILE).to_string() } else { time.to_string() };
@@ -343,7 +425,10 @@ pub fn gen_hit_object(rng: &mut Rng, time: i64, mode: i64) -> String {
         4..=7 => {
             let path = gen_path(rng);
             let slides = if rng.chance(1, 25) { rng.pick(&["9000", "9001", "0", "-1", "200"]).to_string() } else { (1 + rng.below(4)).to_string() };
-            let len = if rng.chance(1, 10) { rng.pick(&["0", "-10", "", "1e5", "131072", "131073", "0.0001"]).to_string() } else { fnum(rng, 10.0, 600.0) };
+            // bounded work: a slider with thousands of spans keeps a playable length (9000 spans x 1e5 px of ticks is
+            // seconds of legitimate work per encode and tells nothing new)
+            let many_spans = slides.parse::<i64>().map_or(true, |n| n > 50);
+            let len = if !many_spans && rng.chance(1, 10) { rng.pick(&["0", "-10", "", "1e5", "131072", "131073", "0.0001"]).to_string() } else { format!("{}", 10.0 + 590.0 * rng.unit()) };
             let nodes = match rng.below(4) {
                 0 => String::new(),
                 1 => ",2|0|4".to_string(),
@@ -391,6 +476,12 @@ pub fn gen_osu(rng: &mut Rng) -> String {
     if rng.chance(1, 6) {
         let extra = *rng.pick(SECTIONS);
         order.push(extra);
+    }
+    if rng.chance(1, 5) {
+        // the three rarely used sections, anywhere in the order
+        let extra = *rng.pick(&["Variables", "CatchTheBeat", "Mania"]);
+        let at = rng.below(order.len() + 1);
+        order.insert(at, extra);
     }
     let mut time = rng.range(-500, 2000);
     for sec in order {
@@ -465,6 +556,12 @@ pub fn gen_osu(rng: &mut Rng) -> String {
                         2 => t += 0.5,
                         _ => t += (rng.below(4000) + 1) as f64,
                     }
+                }
+            }
+            "Variables" | "CatchTheBeat" | "Mania" => {
+                for _ in 0..rng.below(4) {
+                    o.push_str(*rng.pick(&["$var=1", "$x=320,240", "Keys: 4", "Foo: bar", "1,2,3", "garbage", "[Unknown]"]));
+                    o.push_str(nl);
                 }
             }
             "Colours" => {
